@@ -284,6 +284,27 @@ def run_handles_only(prog, rep):
         if not decided:
             fresh = False
             unlooked.append(rep.where(r))
+    # a remembered *negative* answer is never safe: another handle on the same entity creates the container lazily at any time
+    from ..absint import GenericInterp
+    it = GenericInterp(prog)
+    negative = []
+    try:
+        res = it.enumerate(og, this='THIS', args=[('create',)])
+    except Exception as e:
+        raise AnalysisBroken('R-NOCACHE: cannot enumerate optGroup::operator(): %s' % e)
+    for assign, out, log, fields in res:
+        if out[0] != 'ret':
+            continue
+        looked = any(k[0] == 'bool' and k[1] == 'hasGroup' for k in assign)
+        created = any('openGroup' in repr(k) for k in assign) or 'openGroup' in repr(out[1])
+        if looked or created:
+            continue
+        present = [v for k, v in assign.items() if k[0] == 'truthy' and 'mem' in repr(k) and "'g'" in repr(k)]
+        if not (present and present[0] is True):
+            negative.append(sorted('%s=%s' % (repr(k)[:50], v) for k, v in assign.items()))
+    rule.check(not negative, 'optGroup|no-negative-memory', rep.where(og), og.q, 'a "container absent" answer always comes from a fresh lookup',
+               'optGroup can answer "absent" (or return its remembered state) without looking the group up (%s): a container created through another handle of the same entity stays invisible to this one - '
+               'duplicate tests pass and an existing child is re-created with a new id' % (negative[0] if negative else ''))
     containers = {}
     for f in prog.funcs.values():
         if f.body is None:
